@@ -13,7 +13,7 @@ RULE = (
     "(graph signature, op-kind sequence) pairs whose history contains at least one derived read after an assignment"
 )
 REQUIRED = {"reads_derived": 2000, "reverts_partial": 50, "reverts_full": 100, "clones": 100, "quiescent_checks": 1000,
-            "model_histories": 10, "reads_unset_raised": 20, "many_path_graphs": 50}
+            "model_histories": 10, "reads_unset_raised": 20, "many_path_graphs": 50, "weighted_assignments": 200}
 ASSUMPTIONS = [
     "the documented precondition of a partial revert is respected by the generator (only individual-wise nodes are read between an "
     "assignment and a per-individual revert); individual-wise = no ancestor aggregates over individuals (toy: by construction; "
@@ -65,7 +65,7 @@ def run_shard(spec, ctx):
             if i % 8 == 7:
                 ctx.count("many_path_graphs")
             meta = info["meta"]
-            settable = {n: dict(shape=m["shape"], axis=m["axis"]) for n, m in meta.items() if m["indep"] and m["kind"] != "hyper"}
+            settable = {n: dict(shape=m["shape"], axis=m["axis"], weighted=bool(m.get("weighted"))) for n, m in meta.items() if m["indep"] and m["kind"] != "hyper"}
             readable = list(meta)
             indwise = {n for n, m in meta.items() if m["indwise"]}
             fork0 = str(rng.choice(list(sh.FORKS)))
